@@ -185,6 +185,14 @@ def _case(draw):
         case['old_weak'] = sorted(draw(st.sets(st.integers(0, 3), max_size=2))) if draw(st.integers(0, 3)) == 0 else []
         # one pair of elements may be containers: an older mapping / list / call node (protected or not) met by a newer list or mapping.
         # The protected older container stays exactly what it is (what is pruned from the newer list must not show up in it)
+        if draw(st.integers(0, 3)) == 0:
+            # the newer value is a !del mapping whose keys are indices of the older list (also counted from the end): what it does not
+            # write goes, what is protected stays where it is, what it writes stands at the index it names
+            case['via'] = 'delindex'
+            ks = draw(st.lists(st.integers(0, n_old - 1), min_size=1, max_size=n_old, unique=True))
+            case['index_keys'] = [[k - n_old if draw(st.integers(0, 3)) == 0 else k, 30 + k, draw(st.sampled_from([0, 0, 0, 1]))] for k in draw(st.permutations(ks))]
+            case['new_weak'] = case['old_weak'] = []
+            return case
         m_ = min(n_old, len(case['new_list']))
         if m_ and draw(st.integers(0, 2)) == 0:
             j = draw(st.integers(0, m_ - 1))
@@ -681,9 +689,52 @@ def _run_f(case, labels):
     return Outcome(nontrivial=sum(1 for _, e in edits if e == 'del') >= 2 or any(e == 'del' for _, e in edits[:-1]), labels=sorted(labels))
 
 
+def _run_e_delindex(case, labels):
+    import copy
+    path, old_list, keys = case['path'], case['old_list'], case['index_keys']
+    older = copy.deepcopy(case['older'])
+    holder = _get(older, path)
+    holder['items'] = [it for it in holder['items'] if it[0] != 'L'] + [['L', tdoc.sq([tdoc.sc(v, **({'prio': p, 'mdstyle': 'short'} if p else {})) for v, p in old_list], flow=True)]]
+    node = tdoc.mp([(k, tdoc.sc(v, **({'prio': 1, 'mdstyle': 'short'} if f else {}))) for k, v, f in keys], flow=True, **{'del': True})
+    newer = _wrap(path + ['L'], node)
+    t_old, t_new = tdoc.render(older), tdoc.render(newer)
+    src = f'\nolder:\n{t_old}\nnewer:\n{t_new}'
+    status, got = _build([t_old, t_new])
+    n = len(old_list)
+    written = {(k if k >= 0 else n + k): (v, f) for k, v, f in keys}
+    expected_list = []
+    for j, (v, p) in enumerate(old_list):
+        if j in written and written[j][1] >= p:
+            expected_list.append(written[j][0])         # (the later one among equals)
+        elif p > 0:
+            expected_list.append(v)
+        elif j in written:
+            expected_list.append(written[j][0])
+    labels.add('e-via-delindex')
+    protected = [v for j, (v, p) in enumerate(old_list) if p > 0 and not (j in written and written[j][1] >= p)]
+    if protected:
+        labels.add('e-delindex-protected-survivor')
+    if status != 'ok':
+        raise Violation(f'C04e: build failed: {type(got).__name__}: {got}{src}')
+    accepted = [expected_list]
+    if not protected:
+        # nothing of the list is left: the deleting mapping takes its place as it is written (its keys are keys then). Where a forced
+        # element is overwritten by a forced value, whether the list is still there to be written into is not stated: either form
+        accepted = [{k: v for k, v, f in keys}] + ([expected_list] if any(p > 0 for _, p in old_list) else [])
+        expected_list = accepted[0]
+        labels.add('e-delindex-replaces-the-list')
+    if not any(O.canon_unordered(got) == O.canon_unordered(replace_at(ev(older), path + ['L'], e)) for e in accepted):
+        raise Violation(f'C04e: the list {old_list} (value, priority) met by a !del mapping with the index keys {keys} (key, value, forced): what the mapping '
+                        f'does not write goes, protected elements stay at their index, what it writes stands at the index named (as the list was): '
+                        f'expected {expected_list!r}, got {got!r}{src}')
+    return Outcome(nontrivial=bool(protected) and len(protected) < len(expected_list), labels=sorted(labels))
+
+
 def _run_e(case, labels):
     import copy
     from .. import probes
+    if case.get('via') == 'delindex':
+        return _run_e_delindex(case, labels)
     path, old_list, new_list, via = case['path'], case['old_list'], case['new_list'], case['via']
     older = copy.deepcopy(case['older'])
     holder = _get(older, path)
